@@ -1397,7 +1397,11 @@ func (d *DotGit) openAndLockPackedRefs(doCreate bool) (
 
 			return nil, err
 		}
-		fi, err := d.fs.Stat(packedRefsPath)
+		// The reference point is the file we actually opened, not whatever
+		// the path names by now: a rename that lands between the open and
+		// a stat of the path would make both stats see the new file, and
+		// the stale handle would be trusted.
+		fi, err := f.Stat()
 		if err != nil {
 			return nil, err
 		}
